@@ -45,7 +45,7 @@ CLAIMS = {
   technique="static analysis: CFG must-follow with propagation to callers, must-precede under an assumed flag on go/ssa",
   ref="DESIGN.md §4 C12"),
  "C09": dict(
-  text="Structural necessary conditions of 'font loading is total', decided over the whole module: (R-REC) every recursive SCC has a re-derived termination argument and recursion in loops a shared work budget; (R-ALLOC) every make in the font-reading packages whose size has a 32/64-bit file value in its backward slice is guarded by a comparison on that value whose other edge returns a definite error (the capacity idiom is not a guard); (R-COUNT) every signed count parameter that sizes a make without a sign test receives, at every in-module call site, an argument that is provably non-negative (unsigned conversions, len/cap, guarded differences, clamped phis, fields and callee results with the same property); (R-GEN) in the five font-reading packages every index, slice and binary.*.UintN access to a []byte follows, by linear arithmetic over the length tests that dominate it, from those tests (upper bounds and non-negative lower bounds; 331 functions decided, 35 listed with a reason as not claimed because the argument is non-linear or spans sibling functions); (R-LOOP) data-driven loops have a counted exit; (R-DIV) divisors are provably non-zero. A guard whose operand is computed by a wrapping 32-bit operation does not count unless the allocation is sized by the wrapped value. (R-IDX) the accesses to slices of any element type in hand-written font code whose bounds were locally derivable when the set was frozen (231 function/field keys) are still derivable. The two findings that were recorded as known (composite-glyph fan-out, findTableBuffer) have been repaired; their reverts are part of the thorough tier. Index panics on parsed (non-byte) structures and general loop termination are NOT decided. (R-NIL) no method is invoked on an interface field of the table structures that a NULL offset leaves nil: the NULL-able fields are found in the parsers (stores control-dependent on `offset != 0`), closed under field copies, and every invoke site whose receiver may be such a field — through parameters to all callers, captured variables, call results — is dominated by a nil test of that field, or the field is replaced by an empty table in a fill function through which every parsed lookup is handed out. Inside readers the length of every make is provably non-negative.",
+  text="Structural necessary conditions of 'font loading is total', decided over the whole module: (R-REC) every recursive SCC has a re-derived termination argument and recursion in loops a shared work budget; (R-ALLOC) every make in the font-reading packages whose size has a 32/64-bit file value in its backward slice is guarded by a comparison on that value whose other edge returns a definite error (the capacity idiom is not a guard); (R-COUNT) every signed count parameter that sizes a make without a sign test receives, at every in-module call site, an argument that is provably non-negative (unsigned conversions, len/cap, guarded differences, clamped phis, fields and callee results with the same property); (R-GEN) in the five font-reading packages every index, slice and binary.*.UintN access to a []byte follows, by linear arithmetic over the length tests that dominate it, from those tests (upper bounds and non-negative lower bounds; 331 functions decided, 35 listed with a reason as not claimed because the argument is non-linear or spans sibling functions); (R-LOOP) data-driven loops have a counted exit; (R-DIV) divisors are provably non-zero. A guard whose operand is computed by a wrapping 32-bit operation does not count unless the allocation is sized by the wrapped value. (R-IDX) the accesses to slices of any element type in hand-written font code whose bounds were locally derivable when the set was frozen (231 function/field keys) are still derivable. The two findings that were recorded as known (composite-glyph fan-out, findTableBuffer) have been repaired; their reverts are part of the thorough tier. Index panics on parsed (non-byte) structures and general loop termination are NOT decided. (R-NIL) no method is invoked on an interface field of the table structures that a NULL offset leaves nil: the NULL-able fields are found in the parsers (stores control-dependent on `offset != 0`), closed under field copies, and every invoke site whose receiver may be such a field — through parameters to all callers, captured variables, call results — is dominated by a nil test of that field, or the field is replaced by an empty table in a fill function through which every parsed lookup is handed out. Inside readers the length of every make is provably non-negative. (R-PROGRESS) parse loops that advance by the length a nested reader returns, for a 32-bit count of the file, advance by at least one byte on every successful return.",
   note="64-bit int assumed for unsigned-to-int conversions; 16-bit sizes are bounded by type; stdlib decoders (zlib, png, ...) trusted",
   technique="static analysis: call-graph SCC inventory, backward value slices and CFG edge-dominance on go/ssa, interprocedural sign analysis, linear length-fact prover (P-LIN) over dominating comparisons + backward value-origin analysis of interface receivers with dominance of nil tests (R-NIL)",
   ref="DESIGN.md §4 C09"),
